@@ -76,7 +76,7 @@ finding("P14", ["C03"], "open", "`a: int` without default -> function hop (=None
 finding("P15", ["C06"], "open", "Literal pattern 'x|yy' is unanchored: also accepts superstrings such as 'xx' and 'axb'")
 finding("P16", ["C16"], "open", "openapi_bulk: component key is table_name.title() ('Foo_Bar') while routes reference the class name ('FooBar'): dangling $ref")
 finding("P17d", ["C19"], "open", "gen --emit sqlalchemy* with a name template defines `Foo` but exports the templated name in __all__")
-finding("P19", ["C07", "C15"], "open", "doctrans deletes the docstring of an async def")
+finding("P19", ["C15"], "open", "doctrans deletes the docstring of an async def (prose lost; the erased-AST oracle of C07 is not affected)")
 finding("P20", ["C15"], "open", "ReST has no end-of-section notion: footer lines of a ReST docstring (original, or produced by converting a docstring with a footer to ReST) are absorbed into the last :type:/:rtype: value")
 finding(
     "P21", ["C01", "C08"], "open", "google/numpydoc: once any parameter has a default the return entry acquires an invented default",
@@ -190,6 +190,13 @@ W.append(("P30", "C14", {"kind": "text", "text": ":param "}))
 W.append(("P30", "C14", {"kind": "text", "text": ":type int"}))
 W.append(("P35", "C14", {"kind": "function", "src": "def b(b=None, *args):\n    return b\n", "feat": []}))
 W.append(("P29", "C14", {"kind": "emitted", "fmt": "sqlalchemy", "ir": I([["a", {"typ": "int", "doc": "the a"}]]), "style": "rest"}))
+
+# ---- C07 witnesses
+_PRE = "import functools\n\n"
+W.append(("P7", "C07", {"src": "class A(object):\n\n    def n(self, r, s=3, *args, k=1, **kw):\n        \"\"\"\n        Does.\n\n        :param r: the r\n        :type r: ```int```\n\n        :param s: the s\n        :type s: ```int```\n        \"\"\"\n        return r\n", "feat": ["has-default", "star-args", "kw-only"], "runs": [["rest", True, None], ["google", False, None]], "cli": False}))
+W.append(("P26", "C07", {"src": "def f(\n    a=1,  # about a\n    b=2,\n):\n    \"\"\"\n    Does.\n\n    :param a: the a\n    :type a: ```int```\n    \"\"\"\n    return a\n", "feat": ["hazard:P26-comment-in-header"], "runs": [["rest", True, None]], "cli": False}))
+W.append(("P27", "C07", {"src": "def a(): return 0\n", "feat": ["hazard:P27-one-line-def"], "runs": [["rest", False, None]], "cli": False}))
+W.append(("P28", "C07", {"src": "def f(a=1):\n    r\"\"\"\n    Does.\n\n    :param a: the a\n    :type a: ```int```\n    \"\"\"\n    return a\n", "feat": ["hazard:P28-raw-docstring"], "runs": [["google", True, None]], "cli": False}))
 
 
 def main():
